@@ -1,6 +1,7 @@
 package main
 
 import (
+	"encoding/base64"
 	"encoding/binary"
 	"encoding/hex"
 	"fmt"
@@ -181,6 +182,20 @@ var (
 	msgErrBinDetail = &gt.Message{Code: 3, Payload: []byte{0xc3, 0x28}, Count: 1, ErrorDetails: []*anypb.Any{mustAny(wrapperspb.String("d1"))}}
 )
 
+// further valid messages whose replies have the same size as msgOK's but other
+// content, a larger size, and a smaller size (the overlapping-requests part
+// pairs requests whose replies relate in every one of these ways)
+var (
+	msgSame  = &gt.Message{Payload: []byte("world"), Count: 3}
+	msgLong  = &gt.Message{Payload: []byte("LLLLLLLLLLLLLLLLLLLLLLLLLLLLLLLLLLLLLLLLLLLLLLLLLLLLLLLLLLLLLLLL"), Count: 3}
+	msgShort = &gt.Message{}
+)
+
+// jsonOf renders payload and count of m as JSON with a fixed layout.
+func jsonOf(m *gt.Message) []byte {
+	return []byte(fmt.Sprintf(`{"payload":%q,"count":%d}`, base64.StdEncoding.EncodeToString(m.Payload), m.Count))
+}
+
 func framed(m proto.Message) []byte { b := mustPB(m); return frame(int32(len(b)), b) }
 
 var garbage = []byte{0xff, 0xff, 0xff, 0xff, 0xff, 0xff, 0xff, 0xff, 0xff, 0xff, 0xff, 0x01, 'g', 'a', 'r', 'b'}
@@ -243,6 +258,11 @@ func init() {
 		{"frame-err-binmsg-after-data", framed(msgErrBinAfter)},
 		{"frame1+frame-err-binmsg-after-data", cat(framed(msgOK), framed(msgErrBinDetail))},
 		{"frame-err+frame-garbage", cat(frame(int32(len(mustPB(msgErr))), mustPB(msgErr)), frame(int32(len(garbage)), garbage))},
+		{"pb-same", mustPB(msgSame)},
+		{"pb-long", mustPB(msgLong)},
+		{"json-same", jsonOf(msgSame)},
+		{"json-long", jsonOf(msgLong)},
+		{"json-short", []byte(`{}`)},
 	}
 }
 
